@@ -160,11 +160,13 @@ func drawReferrer(rt *rapid.T, remoteMode bool) Referrer {
 				jraw("{"+strings.TrimSuffix(strings.Repeat(`"k":"v",`, 5000), ",")+"}")))
 		case "artifact-manifest":
 			ref.MediaType = mtArtifactManifest
-			m = jobj(jm{"mediaType", jstr(mtArtifactManifest)}, jm{"artifactType", jstr(rp.Pick(rt, "artifactType", mtNotation, mtNotation, "application/vnd.other", ""))},
-				jm{"blobs", m.get("layers")}, jm{"subject", m.get("subject")}, jm{"annotations", m.get("annotations")})
-			if m.get("blobs") == nil {
-				m.set("blobs", jarr(layer))
+			am := jobj(jm{"mediaType", jstr(mtArtifactManifest)}, jm{"artifactType", jstr(rp.Pick(rt, "artifactType", mtNotation, mtNotation, "application/vnd.other", ""))})
+			for _, kv := range [][2]string{{"blobs", "layers"}, {"subject", "subject"}, {"annotations", "annotations"}} {
+				if v := m.get(kv[1]); v != nil { // earlier edits may have dropped the member
+					am.mem = append(am.mem, jm{kv[0], v})
+				}
 			}
+			m = am
 		case "blob-missing":
 			ref.Blobs = nil
 		case "big": // just below / above the 4 MiB manifest cap
